@@ -15,6 +15,10 @@ Three kinds of case, each reproducible from (kind, seed):
          after every run: stopped at the first step at which the rule holds for the conditions registered NOW (oracle keeps
          its own registration state), else reached the end time; TTP times = first crossings of a run WITHOUT conditions;
          the whole call sequence goes to the model in one line (verb sc.hist).  Scripted model + one real Al-Zr history.
+  coupled  the condition-carrying model(s) (scripted / real Al-Zr) solved TOGETHER with 1-2 other models (GrainGrowthModel, trivial
+         GenericModel, a second carrier) through kawin.GenericModel.Coupler, the carrier at every position of the list; oracle from each
+         carrier's own recorded history: the coupled run ends at the first step at which ANY coupled model requests the stop, else at
+         the end time; all clocks = the coupler's clock; flags returned by every postProcess recorded per step (verb sc.coupled).
 """
 import contextlib, hashlib, io, math, os, re, traceback, types
 import numpy as np
@@ -25,13 +29,14 @@ vlib.use_repo()          # `import kawin` below resolves to the tree under test 
 
 PROP = 'C19'
 META = {
-    'level_text': 'Lean 4 theorems, for any linearly ordered field and histories of every length, about an executable model of PrecipitationStoppingCondition (latch, _poll, testCondition), the and/or combination of KWNBase.postProcess, the DESolver loop, KWNBase.reset and TTPCalculator._getStopTime: latch (flag and reported time never change once satisfied), satisfied iff the monitored value was beyond the threshold on a tested row, reported time = linear interpolant and inside [t_prev, t_cur] for both inequalities, first-step case, stop iff (some or-condition satisfied) or (#and > 0 and all and-conditions satisfied), the loop ends at the first step with stop and otherwise at the first row at or beyond the end time (soundness and completeness), _poll reads row n / column phase-or-element of the named array for all six quantities, reset clears every latch and TTP times depend only on that temperature\'s run; and about the REGISTRATION STATE of one model through any history of addStoppingCondition / clearStoppingConditions / reset / solve / TTPCalculator(model, ...) calls (Reg, Op, Reg.after): the stop decision of a run is a function of the currently registered list and the latches of the registered objects only (stop_depends_on_registered_only), after a clear with no and-condition registered since the and-branch contributes false and a model with nothing registered runs to the end time (clear_then_no_and_never_stops, cleared_model_runs_to_end), the TTP constructor leaves exactly its own conditions registered in and-mode and its reported times do not depend on what the model carried before (ttp_sees_only_its_conditions), with witness theorems for a stale and-counter and for a constructor that keeps old conditions; reset() keeps the configuration of every population balance model (limits, class counts, adaptive and recording flags) and puts each on its configured initial grid, through any history, so every TTP temperature runs on the configured grid (reset_keeps_configuration, history_keeps_configuration, ttp_runs_on_configured_grid), with the witness reset_default_loses_configuration for a reset that replaces them by default ones (the code before repair 9231d6f). The model is tied to the code on every run by differential correspondence (condition objects on stubs, scripted histories through the real solve/postProcess/reset/TTPCalculator, whole call histories on one model with a pool of condition objects, a real binary Al-Zr run and a real call history) and the property predicates are evaluated directly on pData histories and condition objects.',
+    'level_text': 'Lean 4 theorems, for any linearly ordered field and histories of every length, about an executable model of PrecipitationStoppingCondition (latch, _poll, testCondition), the and/or combination of KWNBase.postProcess, the DESolver loop, KWNBase.reset and TTPCalculator._getStopTime: latch (flag and reported time never change once satisfied), satisfied iff the monitored value was beyond the threshold on a tested row, reported time = linear interpolant and inside [t_prev, t_cur] for both inequalities, first-step case, stop iff (some or-condition satisfied) or (#and > 0 and all and-conditions satisfied), the loop ends at the first step with stop and otherwise at the first row at or beyond the end time (soundness and completeness), _poll reads row n / column phase-or-element of the named array for all six quantities, reset clears every latch and TTP times depend only on that temperature\'s run; and about the REGISTRATION STATE of one model through any history of addStoppingCondition / clearStoppingConditions / reset / solve / TTPCalculator(model, ...) calls (Reg, Op, Reg.after): the stop decision of a run is a function of the currently registered list and the latches of the registered objects only (stop_depends_on_registered_only), after a clear with no and-condition registered since the and-branch contributes false and a model with nothing registered runs to the end time (clear_then_no_and_never_stops, cleared_model_runs_to_end), the TTP constructor leaves exactly its own conditions registered in and-mode and its reported times do not depend on what the model carried before (ttp_sees_only_its_conditions), with witness theorems for a stale and-counter and for a constructor that keeps old conditions; reset() keeps the configuration of every population balance model (limits, class counts, adaptive and recording flags) and puts each on its configured initial grid, through any history, so every TTP temperature runs on the configured grid (reset_keeps_configuration, history_keeps_configuration, ttp_runs_on_configured_grid), with the witness reset_default_loses_configuration for a reset that replaces them by default ones (the code before repair 9231d6f); and about COUPLED runs (several models solved together through GenericModel.Coupler; CModel, couplerStop, couplerPost, coupledRun): Coupler.postProcess requests the stop iff some coupled model does, whatever its position in the list (coupler_stops_iff_any, couplerStop_perm), the coupled run ends at the first step at which any coupled model requests the stop with every model stepped to that row, otherwise at the first row at or beyond the end time (coupled_run_ends_at_first_request, coupled_run_end_sound, coupled_run_stops_at_first_request, coupled_run_to_end, coupled_run_position_irrelevant; a precipitation model requests iff its own and/or rule holds on its own history: prec_request_iff_history), with the witnesses last_flag_only_drops_requests / last_flag_only_runs_past_request_of_first_model for a coupler that keeps only the flag of the last model. The model is tied to the code on every run by differential correspondence (condition objects on stubs, scripted histories through the real solve/postProcess/reset/TTPCalculator, whole call histories on one model with a pool of condition objects, a real binary Al-Zr run and a real call history, coupled runs of scripted and real models with GrainGrowthModel / a trivial GenericModel with the flag every postProcess returned on every step) and the property predicates are evaluated directly on pData histories and condition objects.',
     'level_note': 'Trusted: Lean kernel + Mathlib, axioms propext/Classical.choice/Quot.sound; the hand model KawinV.StopCond equals the Python code only as far as this run compared them; exact-field arithmetic instead of IEEE doubles (the interpolated time can leave the step by rounding: oracle tolerance 1e-9 of the step); the sequence of rows and times of a run (time stepping, C05) is an input of the model, not derived; NaN monitored values are outside the statement. Modelled code is the repaired code (two fix: commits, see known_findings.txt).',
     'technique': 'Lean 4 proof over ordered fields + model/implementation differential correspondence + direct oracle on run histories',
     'design_ref': 'DESIGN.md section 6, C19',
 }
 LEAN_MODULES = ['KawinV.Props.C19']
 MONITORED = [
+    'coupled runs: every coupled model (GrainGrowthModel, trivial GenericModel, carriers) has the coupler\'s clock row by row, so all are at the stop time when the run ends; models other than precipitation models return stop = False (recorded per step, compared with the model\'s CModel.other)',
     'a real KWN run appends exactly one pData row per solver step and calls testCondition on every condition after every step (checked on the real run by comparing latches with the model replayed on the recorded pData history)',
     'TTPCalculator on the real model: history of each temperature starts at t = 0 with that temperature (reset + setTemperature took effect)',
     'call histories: the times a TTPCalculator reports equal the first crossings of a FRESHLY CONSTRUCTED model of the same configuration (same builder incl. non-default setPBMParameters and setPSDrecording(True)), never reset, WITHOUT stopping conditions, run with the same setTemperature/solve call (real Al-Zr model in the quick tier: 1 temperature, rtol 1e-6)',
@@ -1783,33 +1788,33 @@ def oracle_coupled(res, c, segs):
     desc = coupled_desc(c)
     n = len(c['slots'])
     carpos = sorted(c['carriers'])
-    tag = c['kind']
+    tag = c['kind']          # key prefix: `coupled` = scripted carriers, `coupled-real` = the real Al-Zr model among the coupled models
     for si, seg in enumerate(segs):
         d2 = dict(desc, solve=si)
         k0, m, tf, clock = seg['k0'], seg['m'], seg['tf'], seg['clock']
         # every coupled model is stepped with the coupler: same number of rows, same clock (so all end at the stop time)
         for i, ck in enumerate(seg['clocks']):
             if len(ck) != len(clock):
-                res.violate('coupled:%s:rows-differ' % pos_name(i, n), 'model %d (%s) has %d rows after the coupled solve, the coupler %d' % (i, c['slots'][i], len(ck) - 1, m), d2, len(ck) - 1, m)
+                res.violate('%s:%s:rows-differ' % (tag, pos_name(i, n)), 'model %d (%s) has %d rows after the coupled solve, the coupler %d' % (i, c['slots'][i], len(ck) - 1, m), d2, len(ck) - 1, m)
                 return False
             if not np.array_equal(ck, clock):
                 j = int(np.nonzero(ck != clock)[0][0])
-                res.violate('coupled:%s:clock-differs' % pos_name(i, n), 'the clock of model %d (%s) differs from the coupler\'s at row %d (end of the run: %r vs %r)' % (i, c['slots'][i], j, float(ck[-1]), float(clock[-1])),
+                res.violate('%s:%s:clock-differs' % (tag, pos_name(i, n)), 'the clock of model %d (%s) differs from the coupler\'s at row %d (end of the run: %r vs %r)' % (i, c['slots'][i], j, float(ck[-1]), float(clock[-1])),
                             d2, float(ck[j]), float(clock[j]))
                 return False
         for i in carpos:
             if seg['car'][i]['tf'] != tf:
-                res.violate('coupled:%s:end-time-differs' % pos_name(i, n), 'finalTime of a coupled model differs from the coupler\'s', d2, seg['car'][i]['tf'], tf)
+                res.violate('%s:%s:end-time-differs' % (tag, pos_name(i, n)), 'finalTime of a coupled model differs from the coupler\'s', d2, seg['car'][i]['tf'], tf)
                 return False
         req = {i: requests_from_history(seg['car'][i]['H'], k0, m, c['carriers'][i]['conds'][:seg['car'][i]['active']], seg['car'][i]['pre']) for i in carpos}
         ended = None
         for j in range(k0 + 1, m + 1):
             if not (clock[j - 1] < tf):
-                res.violate('coupled:step-after-end-time', 'a coupled step was taken from row %d although its time is not below the end time' % (j - 1), d2, float(clock[j - 1]), tf)
+                res.violate(tag + ':step-after-end-time', 'a coupled step was taken from row %d although its time is not below the end time' % (j - 1), d2, float(clock[j - 1]), tf)
                 return False
             who = [i for i in carpos if req[i][j]]
             if who and j < m:
-                res.violate('coupled:%s:ran-past-stop' % pos_join(who, n),
+                res.violate('%s:%s:ran-past-stop' % (tag, pos_join(who, n)),
                             'coupled model(s) %s of %d (%s in the list) request the stop after step %d (own and/or rule holds on own history, t = %r) but the coupled run continued to row %d (t = %r, end time %r)'
                             % (who, n, pos_join(who, n), j, float(clock[j]), m, float(clock[m]), tf), d2, dict(step=j, requesting=who, last_row=m), 'coupled run ends at step %d' % j)
                 return False
@@ -1817,11 +1822,11 @@ def oracle_coupled(res, c, segs):
                 ended = ('stop:' + pos_join(who, n)) if who else 'time'
         if m == k0:
             if clock[k0] < tf:
-                res.violate('coupled:no-step-taken', 'the coupled solve took no step although the end time was not reached', d2)
+                res.violate(tag + ':no-step-taken', 'the coupled solve took no step although the end time was not reached', d2)
                 return False
             ended = 'time'
         if ended == 'time' and not (clock[m] >= tf):
-            res.violate('coupled:%s:stopped-without-condition' % pos_join(carpos, n),
+            res.violate('%s:%s:stopped-without-condition' % (tag, pos_join(carpos, n)),
                         'the coupled run ended at t = %r before the end time %r although no coupled model requests the stop (carriers at %s)' % (float(clock[m]), tf, pos_join(carpos, n)),
                         d2, dict(last_row=m, t=float(clock[m])), 'run to the end time')
             return False
@@ -1832,22 +1837,22 @@ def oracle_coupled(res, c, segs):
             for i in range(n):
                 want = req[i][j] if i in req else False
                 if fl[i] is None or fl[i] != want:
-                    res.violate('coupled:%s:model-flag-differs-from-history' % pos_name(i, n), 'step %d: postProcess of model %d (%s) returned stop = %r; by its own history and conditions: %r' % (j, i, c['slots'][i], fl[i], want),
+                    res.violate('%s:%s:model-flag-differs-from-history' % (tag, pos_name(i, n)), 'step %d: postProcess of model %d (%s) returned stop = %r; by its own history and conditions: %r' % (j, i, c['slots'][i], fl[i], want),
                                 d2, fl[i], want)
                     return False
             if cb != any(fl):
                 who = [i for i in range(n) if fl[i]]
-                res.violate(('coupled:%s:stop-request-dropped' % pos_join(who, n)) if any(fl) else 'coupled:stop-flag-without-request',
+                res.violate(('%s:%s:stop-request-dropped' % (tag, pos_join(who, n))) if any(fl) else tag + ':stop-flag-without-request',
                             'step %d: the coupled models returned stop flags %r but Coupler.postProcess returned %r' % (j, fl, cb), d2, cb, any(fl))
                 return False
         if len(seg['combined']) != m - k0:
-            res.violate('coupled:postprocess-calls', 'Coupler.postProcess was called %d times for %d steps' % (len(seg['combined']), m - k0), d2, len(seg['combined']), m - k0)
+            res.violate(tag + ':postprocess-calls', 'Coupler.postProcess was called %d times for %d steps' % (len(seg['combined']), m - k0), d2, len(seg['combined']), m - k0)
             return False
         # each carrier on its own: latches and reported times (and its own rule) on its own history
         nv = len(res.violations)
         for i in carpos:
             others = any(req[i2][m] for i2 in carpos if i2 != i) if m > k0 else False
-            oracle_segment(res, 'coupled:%s:' % pos_name(i, n), dict(d2, carrier=i), c['carriers'][i]['conds'], seg['car'][i], tag + ':' + pos_name(i, n), coupled_stop=others)
+            oracle_segment(res, '%s:%s:' % (tag, pos_name(i, n)), dict(d2, carrier=i), c['carriers'][i]['conds'], seg['car'][i], tag + ':' + pos_name(i, n), coupled_stop=others)
         if len(res.violations) > nv:
             return False
     return True
@@ -2022,6 +2027,7 @@ def corr(ctx, oracle_only=False, scale=1):
                 'comb: all 2^k x 2^k mode/satisfied patterns, k <= 4; ttp: TTPCalculator over 2-4 temperatures; real: binary Al-Zr KWN runs; '
                 'hist: one model + pool of 2-5 condition objects, 3-12 random calls of add (both modes) / clear / reset / solve / TTPCalculator construction / calculateTTP (1-3 temperatures) '
                 'ending in a run, evaluated against the oracle\'s own registration state and, for TTP, a freshly constructed never-reset reference model without conditions (scripted model; one real Al-Zr history with non-default population balance parameters: run, reset, calculateTTP, further runs; every reset() observed structurally). '
+                'coupled: 2-3 models through Coupler (or a subclass overriding getdXdt), 1-2 of them condition-carrying (scripted, 0-4 conditions in and/or mixes) at first / middle / last position, the others GrainGrowthModel / trivial GenericModel, one or two solves, Euler and RK4; real Al-Zr model + GrainGrowthModel (+ trivial / scripted carrier) in 2 orders per quick run (one with the real model not last), or / and / never-met condition sets; '
                 'non-trivial = at least two tested rows / at least one condition and no exception; distinct = (kind, seed)')
     # every part runs whatever happened in the others; inside a part every case has its own guard
     guard(res, 'part-combination', {}, part_combination, ctx, res, oracle_only)
